@@ -1,11 +1,15 @@
-"""C05 open findings.  usage: python c05_findings.py <nesting|literal>"""
+"""C05 open findings.  usage: python c05_findings.py <nesting|literal|negated_index>"""
 import sys, numpy as np, warnings, os, tempfile
 warnings.simplefilter('ignore'); os.chdir(tempfile.mkdtemp())
 from pyrates import OperatorTemplate, NodeTemplate, CircuitTemplate
-rhs = {'nesting': "-x + sin(sin(x))", 'literal': "-x + sigmoid(7) * x"}[sys.argv[1]]
-op = OperatorTemplate(name='op', equations=[f"x' = {rhs}"], variables={'x': 'output(0.3)'})
+which = sys.argv[1]
+rhs = {'nesting': "-x + sin(sin(x))", 'literal': "-x + sigmoid(7) * x", 'negated_index': "a - index(v, 1)"}[which]
+variables = {'x': 'output(0.3)'}
+if which == 'negated_index':
+    variables.update({'a': 0.5, 'v': {'vtype': 'constant', 'value': np.array([0.3, 0.7, 1.1]), 'shape': (3,), 'dtype': 'float'}})
+op = OperatorTemplate(name='op', equations=[f"x' = {rhs}"], variables=variables)
 c = CircuitTemplate(name='c', nodes={'a': NodeTemplate(name='n', operators=[op])})
 f, args, names, smap = c.get_run_func('vf', step_size=1e-3, vectorize=False, verbose=False, float_precision='float64')
-exp = {'nesting': -0.3 + np.sin(np.sin(0.3)), 'literal': -0.3 + 0.3 / (1 + np.exp(-7))}[sys.argv[1]]
+exp = {'nesting': -0.3 + np.sin(np.sin(0.3)), 'literal': -0.3 + 0.3 / (1 + np.exp(-7)), 'negated_index': 0.5 - 0.7}[which]
 got = f(0, np.array(args[1]), *args[2:])[0]
 print(got, exp); assert abs(got - exp) < 1e-12
